@@ -308,7 +308,10 @@ class NdContract(Contract):
                 if op == "Div" and getattr(b, "cell", None) is not None and getattr(self, "check_pointwise_division", True):
                     ix = (GI, GJ)[:len(b.shape)]
                     eng.oblige(st, "no_division_by_zero_pointwise", z3.Implies(in_range(b.shape, ix), to_real_(b.cell(*ix)) != 0), "arith", node)
-                return Nd(f"({a.name}{op}{b.name})", shape, "ndarray", "ERASED", binop=(op, a, b), cell=cell)
+                pandas_kinds = [x.kind for x in (a, b) if x.kind in ("series", "frame")]
+                kind = pandas_kinds[0] if pandas_kinds else "ndarray"
+                prov = "ERASED" if not pandas_kinds else ("USER" if "USER" in (a.prov, b.prov) else "DEFAULT")
+                return Nd(f"({a.name}{op}{b.name})", shape, kind, prov, binop=(op, a, b), cell=cell)
             v = a if is_nd(a) else b
             other = b if is_nd(a) else a
             vc = getattr(v, "cell", None)
